@@ -26,10 +26,13 @@ def produce_trace(ctx):
     trace = os.path.join(wd, "trace.ndjson")
     meta_f = os.path.join(cdir, "meta.json")
     if os.path.exists(meta_f) and time.time() - os.path.getmtime(meta_f) < 1800 and ctx.only is None:
-        shutil.copy(os.path.join(cdir, "trace.ndjson"), trace)
-        meta = json.load(open(meta_f))
-        vlib.log("robust: reusing trace %s" % key)
-        return trace, meta
+        try:
+            shutil.copy(os.path.join(cdir, "trace.ndjson"), trace)
+            meta = json.load(open(meta_f))
+            vlib.log("robust: reusing trace %s" % key)
+            return trace, meta
+        except (OSError, ValueError):
+            pass        # another check is replacing the cache: compute it here
     tpl = os.path.join(wd, "tpl.ndjson")
     vlib.run_driver(drv, ["robust-templates", "--out", tpl + ".raw", "--repo", vlib.REPO])
     with open(tpl + ".raw") as f, open(tpl, "w") as g:
@@ -48,10 +51,23 @@ def produce_trace(ctx):
     stats = dict(kv.split("=") for kv in out.strip().split()[1:])
     meta = {"stats": stats, "plan_lines": len(plan), "planner_states": r["states"], "planner_distinct": r["distinct"]}
     if ctx.only is None:
-        shutil.rmtree(CACHE, ignore_errors=True)
-        os.makedirs(cdir, exist_ok=True)
-        shutil.copy(trace, os.path.join(cdir, "trace.ndjson"))
-        json.dump(meta, open(meta_f, "w"))
+        # publish atomically (C08 and C09 may run side by side): fill a private directory, then rename it into place
+        try:
+            os.makedirs(CACHE, exist_ok=True)
+            for d in os.listdir(CACHE):     # drop stale entries (other trees / seeds, interrupted writers)
+                dp = os.path.join(CACHE, d)
+                if d != key and time.time() - os.path.getmtime(dp) > 1800:
+                    shutil.rmtree(dp, ignore_errors=True)
+            tmpd = os.path.join(CACHE, "%s.tmp%d" % (key, os.getpid()))
+            os.makedirs(tmpd, exist_ok=True)
+            shutil.copy(trace, os.path.join(tmpd, "trace.ndjson"))
+            json.dump(meta, open(os.path.join(tmpd, "meta.json"), "w"))
+            if os.path.isdir(cdir):
+                shutil.rmtree(tmpd, ignore_errors=True)
+            else:
+                os.rename(tmpd, cdir)
+        except OSError:
+            pass
     return trace, meta
 
 
